@@ -301,8 +301,13 @@ func (c18) Eval(c *Case) (*Violation, bool) {
 			if base.FS[t] != old[t] {
 				return &Violation{Signature: "unparseable-file-modified", Msg: t + " does not parse but was modified", Detail: firstDiff(old[t], base.FS[t])}, false
 			}
-		} else if strings.HasPrefix(c.Sub, "format") && base.FS[t] == old[t] && len(old[t]) > 0 && strings.Contains(old[t], "\t") {
-			return &Violation{Signature: "parseable-file-not-rewritten", Msg: t + " parses but was not formatted (another file failed)", Detail: base.Stderr}, false
+		} else if c.Sub == "format-n" && len(targets) > 1 {
+			// a failure on another file must not prevent this one: formatting it together
+			// with the others gives what formatting it alone gives
+			solo := Run(c.specFor(s, c.Files, []string{"format", t}))
+			if solo.OK() && base.FS[t] != solo.FS[t] {
+				return &Violation{Signature: "parseable-file-not-rewritten", Msg: t + " is formatted when passed alone but not when passed together with the others", Detail: base.Stderr}, false
+			}
 		}
 	}
 	for p := range base.FS {
